@@ -129,7 +129,7 @@ PROPS = {
     "C04": dict(
         title="reordering conjuncts/disjuncts (answer multiset)",
         props_module="PvModel.Props.C04",
-        props_extra=["PvModel.Props.C04Rel", "PvModel.Props.C04Count"],
+        props_extra=["PvModel.Props.C04Rel", "PvModel.Props.C04Count", "PvModel.Props.C17Enforce"],
         rule="terminating programs, half pure tree (==, !=, fresh, nested conde) and half FD (the C16 generator incl. conde and structured query "
              "terms); each run as written and under random permutations of every conjunction and every clause list (all permutations of a "
              "top-level conjunction of <=3 goals); answers compared as multisets of (canonical terms, truth table of the reported constraints) / "
@@ -137,7 +137,7 @@ PROPS = {
              "model; non-trivial = >=2 answers; distinct = distinct case lines",
         trusted=SEARCH_TRUST,
         assumptions=[],
-        open=["reordering inside programs with COMMITTED CHOICE is checked by the oracle only (programs with relation calls: C04_rel_equiv / C04_rel_conj_comm / C04_rel_alt_comm)"],
+        open=["reordering inside programs with COMMITTED CHOICE is checked by the oracle only (programs with relation calls: C04_rel_equiv / C04_rel_conj_comm / C04_rel_alt_comm)", "FD answer MULTISETS: per path, C04_fd_answer_values_perm (with C17_answer_values) shows the answer values after labelling + the onceo over the hidden variables are permutations of each other for two states describing the same valuations; the sum over the paths of a program and reification are carried by the correspondence"],
     ),
     "C09": dict(
         title="query iteration: lazy, fused, deterministic",
